@@ -19,7 +19,10 @@ RULE = ("deterministic base histories of the real scheduler (lattice plug-in "
         "directory tree is copied - that copy is what a crash of the main "
         "process before that effect leaves on disk; crashes INSIDE a write are "
         "produced by cutting the file that effect opened to 4 prefixes of "
-        "what it eventually wrote. Every crash state is then restarted: the "
+        "what it eventually wrote; a crash right AFTER a rename is the tree "
+        "before it with the rename applied to what had reached the disk "
+        "(catches a rename of a file that is still open and unflushed). "
+        "Every crash state is then restarted: the "
         "restart file must parse, setup_config+setup_internal must load every "
         "active path with non-zero weight and all files, the recorded "
         "in-flight jobs must be re-issued first, the run must continue for "
@@ -41,7 +44,7 @@ ASSUMPTIONS = [
     "level state (a sample is re-checked in a real fresh interpreter)",
 ]
 MUST_REACH = ["crash_state_probed", "torn_state_probed", "second_crash",
-              "boundary_state_probed"]
+              "boundary_state_probed", "after_rename_state_probed"]
 JOB_TIMEOUT = 1700
 
 
@@ -171,7 +174,7 @@ def work(job, scratch):
     if job["kind"] == "boundary":
         return _boundary(job, scratch)
     from vf.sched_case import run_case
-    from vf.fsfault import Recorder, torn_variants
+    from vf.fsfault import Recorder, torn_variants, after_rename_variant
     from vf.crash_probe import probe
     rng = random.Random(job["seed"])
     spec = job["spec"]
@@ -226,7 +229,19 @@ def work(job, scratch):
         if effects[i]["event"].startswith("open-"):
             for tag, build in torn_variants(snapdir, effects, i):
                 states.append((i, tag, build))
+        for tag, build in after_rename_variant(snapdir, effects, i):
+            states.append((i, tag, build))
     states = states[: job["budget"] * 2]
+    # the rename that publishes the restart file, of EVERY step: the state
+    # right after it (outside the budget, one state per step)
+    have = {(i, tag) for i, tag, _ in states}
+    for e in effects:
+        if e["event"] == "os.rename" and \
+                e.get("dst", "").endswith("restart.toml"):
+            for tag, build in after_rename_variant(snapdir, effects,
+                                                   e["idx"]):
+                if (e["idx"], tag) not in have:
+                    states.append((e["idx"], tag, build))
     nsecond = 0
     for (i, tag, build) in states:
         eff = effects[i]
@@ -240,7 +255,10 @@ def work(job, scratch):
         out = probe(cd, more, policy="random", adv_seed=rng.randrange(10 ** 6))
         res["n"] += 1
         reach("crash_state_probed")
-        if build is not None:
+        if tag == "after-rename":
+            reach("after_rename_state_probed")
+            ev("after_rename_states")
+        elif build is not None:
             reach("torn_state_probed")
             ev("torn_states")
         ev("crash_states")
